@@ -20,7 +20,7 @@ RULES = {
     "B5": proto.rule_B5,
     "B6": proto.rule_B6,
     "B7": proto.rule_B7,
-    "E1": guard.rule_E1, "E2": cursor.rule_E2, "E3": cursor.rule_E3, "E5": cursor.rule_E5,
+    "E1": guard.rule_E1, "E2": cursor.rule_E2, "E3": cursor.rule_E3, "E5": cursor.rule_E5, "E6": cursor.rule_E6,
     "A1": coord.rule_A1, "A2": coord.rule_A2, "A3": coord.rule_A3, "A4": coord.rule_A4,
     "A5": coord.rule_A5, "A6": coord.rule_A6, "A7": coord.rule_A7, "A8": coord.rule_A8, "A9": coord.rule_A9, "A10": coord.rule_A10, "A11": coord.rule_A11,
     "F1": tables.rule_F1, "F2": tables.rule_F2, "F3": tables.rule_F3, "F4": tables.rule_F4, "F5": tables.rule_F5,
@@ -70,6 +70,7 @@ CONTROLS = [
     {"name": "F24-stale-width", "rule": "F24", "fn": _fires(tables.rule_F24, "f24_bad_width")},
     {"name": "F26-offset-bookkeeping", "rule": "F26", "fn": _fires(tables.rule_F26, "f26_bad_offsets")},
     {"name": "A11-side-pattern", "rule": "A11", "fn": _fires(coord.rule_A11, "a11_bad_pattern")},
+    {"name": "E6-stale-position", "rule": "E6", "fn": _fires(cursor.rule_E6, "e6_bad_stale_position")},
     {"name": "E5-cursor-base", "rule": "E5", "fn": _fires(cursor.rule_E5, "e5_bad_cursor_base")},
     {"name": "F23-tag-blocks-differ", "rule": "F23", "fn": _fires(tables.rule_F23, "ChangesIter")},
 ]
